@@ -214,6 +214,9 @@ func TestVerifC18(t *testing.T) {
 			eps:  []receive.Endpoint{ep("n1", ""), ep("n2", ""), ep("n3", "")},
 			perm: []receive.Endpoint{ep("n3", ""), ep("n2", ""), ep("n1", "")}},
 	}
+	if !fixedInputs("C18") {
+		fixed = nil
+	}
 	for i, c := range fixed {
 		msg, nt, classes := c18Check(c)
 		if msg != "" {
